@@ -750,6 +750,39 @@ func c17R5(c *Ctx) {
 				if isBuiltin(info, n, "append") && len(n.Args) >= 2 {
 					for _, a := range n.Args[1:] {
 						if usesAcc(a) {
+							// a flush that happens only in the last iteration (every enclosing condition up to the loop
+							// includes the conjunct `key == len(elements)-1`): nothing of the loop runs after it
+							for q := w.parent[ast.Node(n)]; q != nil && q != ast.Node(loop); q = w.parent[q] {
+								is, ok := q.(*ast.IfStmt)
+								if !ok {
+									continue
+								}
+								var conj []ast.Expr
+								var split func(e ast.Expr)
+								split = func(e ast.Expr) {
+									if b, ok := unparen(e).(*ast.BinaryExpr); ok && b.Op == token.LAND {
+										split(b.X)
+										split(b.Y)
+										return
+									}
+									conj = append(conj, unparen(e))
+								}
+								split(is.Cond)
+								inBody := false
+								for p2 := ast.Node(n); p2 != nil && p2 != ast.Node(is); p2 = w.parent[p2] {
+									if p2 == ast.Node(is.Body) {
+										inBody = true
+									}
+								}
+								for _, d := range conj {
+									if b, ok := d.(*ast.BinaryExpr); ok && b.Op == token.EQL && inBody {
+										kid := identOf(loop.Key)
+										if id := identOf(b.X); id != nil && kid != nil && info.Uses[id] == info.Defs[kid] && x.str(b.Y) == "(len("+recv+".Elements)-1)" {
+											return []string{"FLUSHLAST"}
+										}
+									}
+								}
+							}
 							return []string{"FLUSH"}
 						}
 					}
@@ -786,7 +819,15 @@ func c17R5(c *Ctx) {
 	}
 	// "flushed" followed by another ACC without RESET means the flushed text is emitted again
 	r.step = func(st, ev string) string {
+		if st == "final" {
+			return ""
+		}
 		switch ev {
+		case "FLUSHLAST":
+			if st == "stale" {
+				return "stale-flushed"
+			}
+			return "final"
 		case "ACC":
 			if st == "flushed" || st == "stale" {
 				return "stale"
@@ -803,6 +844,9 @@ func c17R5(c *Ctx) {
 		return ""
 	}
 	r.bad = func(st, ev string) string {
+		if st == "final" {
+			return ""
+		}
 		if ev == "KEEP" && (st == "dirty" || st == "stale") {
 			return "an expression element is kept while the text before it has not been flushed: the arguments would be reordered"
 		}
